@@ -61,6 +61,17 @@ def main():
             return 1 if bad else 0
         t0 = time.time()
         col = mod.run(args.tier, seed, args.procs)
+        # regression tier: committed minimal cases (fixed findings, mutant killers)
+        import glob
+        n_reg = 0
+        for path in sorted(glob.glob(os.path.join(HERE, 'regress', prop, '*.json'))):
+            with open(path) as f:
+                rcase = json.load(f)['case']
+            n_reg += 1
+            col.evaluations += 1
+            for fl in mod.rejudge(rcase):
+                col.add_failure(fl, rcase)
+        col.notes.append(f'regression cases replayed: {n_reg}')
         known = findings.open_known(prop)
         known_seen, violations = [], []
         for sig, rec in sorted(col.failures.items()):
